@@ -9,6 +9,7 @@ Static clauses (DESIGN section 4, C06):
   S-SETCONST every Param::Set built anywhere wraps a constant constructor (premise of the Param::Set rows)
   S-GUARD  safe_apply_args returns MissingTxArg for an absent reported parameter before apply_args can run;
            resolve_tx applies arguments only through it
+  T1c (tuples)  an impl of a traversal method on a tuple of IR nodes recurses with the method on every component
   F-NORM   parameter / input names put into the IR by the lowering are lower-cased
 """
 from .. import mir, e3_trav as e3
